@@ -483,6 +483,40 @@ impl<'a> Tr<'a> {
             Pat::Struct(ps) => {
                 let segs = path_segs(&ps.path);
                 let last = segs.last().cloned().unwrap_or_default();
+                if segs.len() >= 2 {
+                    let en = &segs[segs.len() - 2];
+                    let en = if en == "Self" { self.cur.self_ty.clone().unwrap_or_default() } else { en.clone() };
+                    if let Some(lean_en) = self.reg.enums.get(&en).cloned() {
+                        let names = self.variant_field_names(&en, &last);
+                        let tys = self.variant_field_tys(&en, &last, p.span())?;
+                        self.unify(ty, &Ty::Adt(en.clone()), p.span())?;
+                        let mut leans = Vec::new();
+                        let mut conds = Vec::new();
+                        let mut binds = Vec::new();
+                        let mut trees = Vec::new();
+                        for (n, t) in names.iter().zip(tys.iter()) {
+                            let fp = ps.fields.iter().find(|x| match (&x.member, n) {
+                                (syn::Member::Named(id), Some(n)) => id == n,
+                                _ => false,
+                            });
+                            match fp {
+                                Some(fp) => {
+                                    let po = self.pat(&fp.pat, t)?;
+                                    leans.push(po.lean);
+                                    conds.extend(po.conds);
+                                    binds.extend(po.binds);
+                                    trees.push(po.tree);
+                                }
+                                None => {
+                                    leans.push("_".into());
+                                    trees.push(PTree::Wild);
+                                }
+                            }
+                        }
+                        let fam = self.enum_family(&en);
+                        return Ok(PatOut { lean: format!("({}.{} {})", lean_en, lean_ident(&last), leans.join(" ")), conds, binds, view: None, tree: PTree::Ctor { name: last, family: fam, args: trees } });
+                    }
+                }
                 let sname = if last == "Self" { self.cur.self_ty.clone().unwrap_or_default() } else { last };
                 let st = match self.idx.find_struct(&sname, &self.cur.module) {
                     Some(s) if self.reg.structs.contains_key(&sname) => s.clone(),
